@@ -523,6 +523,10 @@ func Options(t *rapid.T, s OptSpec) database.SearchOptions {
 		o.AllPlatforms = rapid.IntRange(0, 3).Draw(t, "all-platforms") == 0
 		if rapid.Bool().Draw(t, "platforms?") {
 			o.Platforms = rapid.SliceOfN(rapid.SampledFrom([]string{"linux", "windows", "macos", "Windows", "darwin", "cross-platform", "freebsd", "powershell", "", "w", "lin", "mac", " linux"}), 1, 2).Draw(t, "platforms")
+			if rapid.IntRange(0, 5).Draw(t, "many-platforms") == 0 {
+				// long lists: every major platform named explicitly is still a list, not "all platforms"
+				o.Platforms = rapid.SampledFrom([][]string{{"linux", "macos", "windows"}, {"windows", "linux", "macos", "linux"}, {"linux", "darwin", "windows"}, {"macos", "windows", "linux", "freebsd"}, {"linux", "macos"}, {"Linux", "MacOS", "Windows"}}).Draw(t, "platform-list")
+			}
 		}
 		o.NoCrossPlatform = rapid.IntRange(0, 2).Draw(t, "no-cross") == 0
 	}
